@@ -1,6 +1,7 @@
 import Norad.Base.Proto
 import Driver.C11
 import Driver.C06
+import Driver.C05
 /-!
 # Line-protocol driver
 
@@ -14,6 +15,7 @@ def dispatch (inp obs : List String) : Verdict :=
   match inp.head? with
   | some "C11" => Driver.C11.run inp obs
   | some "C06" => Driver.C06.run inp obs
+  | some "C05" => Driver.C05.run inp obs
   | _ => { agree := false, model := "unknown-model" }
 
 partial def loop (h : IO.FS.Stream) (out : IO.FS.Stream) : IO Unit := do
